@@ -63,6 +63,17 @@ def up(x):
     return f
 
 
+HUGE = 2**28
+
+
+def scale_of(Vs, hq):
+    """magnitude the float tolerances are relative to: the largest optimal / heuristic value, EXCEPT the
+    values >= 2^28 of the appended 'treasure' states (add_jackpots): those are single exact products
+    (reward c * 2^k, k >= 30) and reach every other value only multiplied by 2^-k, so they add no
+    floating-point noise; letting them into the scale would blow the tolerances up by ~1e9"""
+    return max([F(1)] + [abs(x) for x in list(Vs) + list(hq) if abs(x) < HUGE])
+
+
 def prep(mdp):
     n, nA = mdp["n"], mdp["nA"]
     P, R, av, absf, ini = gen_mdp.arrays(mdp, list(range(n)), list(range(nA)))
@@ -135,7 +146,7 @@ def perturb(rng, m, nonpos):
         s, a = map(int, key.split(","))
         pos = [ns for ns, p in row if F(p) > 0]
         zero = [ns for ns, p in row if F(p) == 0]
-        if m["absorbing"][s] or len(pos) > 7:
+        if m["absorbing"][s] or len(pos) > 7 or any(0 < F(p) < F(1, 2**20) for ns, p in row):
             b["trans"][key] = [list(x) for x in row]
             for ns in pos:
                 k3 = "%d,%d,%d" % (s, a, ns)
@@ -165,6 +176,65 @@ def extreme_probs(rng, m):
     it = iter(ps)
     m["trans"][key] = [[ns, (str(next(it)) if F(p) > 0 else "0")] for ns, p in m["trans"][key]]
     return True
+
+
+def add_jackpots(rng, m, nonpos):
+    """rare branches that matter: 1-2 rows get an extra successor with probability p = 2^-k, k in 27..40
+    (below np.isclose's default atol 1e-8), the rest of the row scaled by 1 - p (all dyadic, exact doubles).
+    The rare branch goes to an absorbing state or an arbitrary other state with reward +-c/p, or (reward 0)
+    to an appended 'treasure' state that is reachable only through rare branches and pays c/p on its way to
+    an absorbing state - so the large value enters through the boundary value of a not-yet-expanded node.
+    Optionally a 2^-k entry in the initial distribution.  Returns a description, or None if not applicable."""
+    n = m["n"]
+    rows = [key for key in m["trans"] if not m["absorbing"][int(key.split(",")[0])]]
+    absorbing = [s for s in range(n) if m["absorbing"][s]]
+    if not rows:
+        return None
+    info = {"rows": [], "treasure": None, "init": None}
+    sign = lambda: -1 if (nonpos or rng.random() < .4) else 1
+    treasure = None
+    if absorbing and rng.random() < .55:
+        treasure = n
+        kT = rng.randint(30, 40)        # with c >= 1 below: value >= 2^30, see scale_of
+        a = rng.randrange(m["nA"])
+        m["n"] = n + 1
+        m["actions"].append([a])
+        m["absorbing"].append(False)
+        g = rng.choice(absorbing)
+        m["trans"]["%d,%d" % (treasure, a)] = [[g, "1"]]
+        m["reward"]["%d,%d,%d" % (treasure, a, g)] = str(sign() * F(rng.randint(4, 32), 4) * 2**kT)
+        info["treasure"] = {"state": treasure, "k": kT}
+    for key in rng.sample(rows, min(len(rows), rng.choice([1, 1, 2]))):
+        s, a = map(int, key.split(","))
+        row = m["trans"][key]
+        inrow = {ns for ns, p in row}
+        k = info["treasure"]["k"] if treasure is not None and not info["rows"] else rng.randint(27, 40)
+        p = F(1, 2**k)
+        if treasure is not None and not info["rows"]:
+            tgt, r = treasure, F(0)
+        else:
+            cands = [x for x in (absorbing if rng.random() < .6 else range(n)) if x not in inrow and x != s]
+            if not cands:
+                continue
+            tgt = rng.choice(cands)
+            r = sign() * F(rng.randint(1, 32), 4) * 2**k
+        m["trans"][key] = [[ns, str(F(q) * (1 - p))] for ns, q in row] + [[tgt, str(p)]]
+        rng.shuffle(m["trans"][key])
+        if r != 0:
+            m["reward"]["%d,%d,%d" % (s, a, tgt)] = str(r)
+        info["rows"].append({"row": key, "target": tgt, "k": k})
+    if not info["rows"]:
+        return None
+    if rng.random() < .35:
+        ini = {s for s, p in m["init"]}
+        cands = [x for x in range(m["n"]) if x not in ini]
+        if cands:
+            k = info["treasure"]["k"] if treasure is not None and treasure in cands else rng.randint(27, 40)
+            tgt = treasure if treasure is not None and treasure in cands else rng.choice(cands)
+            p = F(1, 2**k)
+            m["init"] = [[s, str(F(q) * (1 - p))] for s, q in m["init"]] + [[tgt, str(p)]]
+            info["init"] = {"state": tgt, "k": k}
+    return info
 
 
 def scale_rewards(m, k):
@@ -318,6 +388,9 @@ def gen_case(rng, tier, family=None):
         if rng.random() < .12:
             tweak["reward_scale"] = rng.choice([1000, 10**5])
             scale_rewards(m, tweak["reward_scale"])
+        nonpos0 = F(m["gamma"]) == 1 or sparse or not any(F(r) > 0 for r in m["reward"].values())
+        if not tweak and rng.random() < .3:
+            tweak["jackpots"] = add_jackpots(rng, m, nonpos0)
         plans = [m]
         if rng.random() < .4:
             # the same planner object is reused on an MDP with the same labels but different dynamics
@@ -329,6 +402,8 @@ def gen_case(rng, tier, family=None):
     n = plans[0]["n"]
     Vmax = [max(V[s] for V in Vall) for s in range(n)]
     kind = rng.choice(["const", "exact", "slack"] + (["exact", "slack"] if shape in ("sparse", "neartie") else []))
+    if (tweak.get("jackpots") or {}).get("treasure") and kind == "const":
+        kind = "exact"      # a constant bound of ~1e12 everywhere only tests double-precision cancellation
     if kind == "const":
         c = max([F(0)] + Vmax) + rng.choice([0, 1, 5])
         h = [c] * n
@@ -424,7 +499,7 @@ def search_failing(case, res):
     """the property's clauses, evaluated with exact rationals on the implementation's answer"""
     n, nA, P, R, av, absf, ini, g, masked = prep(case["mdp"])
     Vs = [F(x) for x in case["vstar"]]
-    scale = max([F(1)] + [abs(x) for x in Vs] + [abs(vlib.frac(x)) for x in case["h"]])
+    scale = scale_of(Vs, [vlib.frac(x) for x in case["h"]])
     tiny = F(2, 10**9) * scale
     if not res["converged"]:
         return {"clause": "LAO* does not report convergence", "tips": res.get("tips")}
@@ -483,7 +558,7 @@ def judge_large(case, res):
     n, nA, g = m["n"], m["nA"], F(m["gamma"])
     Vs = [F(x) for x in case["vstar"]]
     hq = [vlib.frac(x) for x in case["h"]]
-    scale = max([F(1)] + [abs(x) for x in Vs] + [abs(x) for x in hq])
+    scale = scale_of(Vs, hq)
     tiny = F(1, 10**8) * scale
     rho = F(2, 10**10) + F(1, 10**12) * scale
     if not res["converged"]:
@@ -559,7 +634,7 @@ def terms_for(case, res):
     n, nA, P, R, av, absf, ini, g, masked = prep(case["mdp"])
     Vs = [F(x) for x in case["vstar"]]
     hq = [vlib.frac(x) for x in case["h"]]
-    scale = max([F(1)] + [abs(x) for x in Vs] + [abs(x) for x in hq])
+    scale = scale_of(Vs, hq)
     # rho models the 10-decimal rounding of the arg-max in _policy_iteration (two actions whose rounded
     # values agree differ by < 1e-10) plus floating-point noise of the linear solve
     rho = F(2, 10**10) + F(1, 10**12) * scale
@@ -673,7 +748,7 @@ def run(ctx):
                 # what remains checkable is that every held value is still an upper bound
                 nshort += 1
                 Vsx = [F(x) for x in cv["vstar"]]
-                sc = max([F(1)] + [abs(x) for x in Vsx] + [abs(vlib.frac(x)) for x in case["h"]])
+                sc = scale_of(Vsx, [vlib.frac(x) for x in case["h"]])
                 low = [(s, v) for s, v in rk["value_map"] if isinstance(v, str) or vlib.frac(v) < Vsx[s] - F(2, 10**9) * sc]
                 if low:
                     ctx.violation("C03:value held for an explored state is below its optimal value",
@@ -704,6 +779,10 @@ def run(ctx):
             f["init_as_state_effective"] = rp.get("init_as") == "state" and len(cv["mdp"]["init"]) == 1
             f["tweak_extreme_probs"] = bool(case.get("tweak", {}).get("extreme_probs"))
             f["tweak_reward_scale"] = bool(case.get("tweak", {}).get("reward_scale"))
+            jp = case.get("tweak", {}).get("jackpots") or {}
+            f["tweak_jackpot_rare_branch"] = bool(jp)
+            f["tweak_jackpot_treasure_state"] = bool(jp.get("treasure"))
+            f["tweak_jackpot_initial_entry"] = bool(jp.get("init"))
             f["gamma_" + cv["mdp"]["gamma"]] = True
             f["single_state"] = cv["mdp"]["n"] == 1
             f["initially_all_absorbing_support"] = all(cv["mdp"]["absorbing"][s] for s, p in cv["mdp"]["init"] if F(p) > 0)
